@@ -327,7 +327,7 @@ func rendererHistories(tier string) []scen {
 		menu = append(menu, i)
 	}
 	for i, b := range Bodies[:FirstRenderBody] {
-		if b.Name == "NewTextBox(shared font)" || b.Name == "rasterizer.Draw" {
+		if b.Name == "NewTextBox(shared font)" || b.Name == "rasterizer.Draw" || b.Hist {
 			menu = append(menu, i)
 		}
 	}
